@@ -34,8 +34,15 @@ struct DataContext
     size_t maxBytesPerMessage{1500};
 };
 
+#ifdef ASAM_CMP_VERIF
+struct VerifAccess;
+#endif
+
 class Encoder final
 {
+#ifdef ASAM_CMP_VERIF
+    friend struct VerifAccess;
+#endif
 private:
     using SegmentType = MessageHeader::SegmentType;
 
